@@ -20,7 +20,8 @@ StackVerdict(e) ==    \* e.orig[i], e.back[i]: projections <<time, date, tagsum>
      \E i \in 1..Len(e.orig) :
         CASE c = "StackSliceData" -> e.back[i].tags # e.orig[i].tags
           [] c = "StackSliceDates" -> e.back[i].date # e.orig[i].date
-          [] c = "StackSliceTimes" -> e.back[i].time # e.orig[i].time}
+          \* append(image, offset): the appended image's relative time is shifted by the offset (none for stack)
+          [] c = "StackSliceTimes" -> e.back[i].time # (IF i > 1 /\ e.orig[i].time # -1 THEN e.orig[i].time + e.offset ELSE e.orig[i].time)}
 
 Step(e) ==
   IF e.op = "root" THEN
